@@ -403,6 +403,44 @@ def rule_common_node_order(ctx: Ctx, sites) -> None:
                      f"not LC-equivalent to itself)", func=q, construct=f"{q}: no common node order")
 
 
+# --------------------------------------------------------------------------- distinct.prefix-set
+
+
+def rule_prefix_set(ctx: Ctx) -> None:
+    """distinct.prefix-set: depth_first_orbit replays complementation sequences from the input graph.  The depth-first paths share their
+    opening stretches, so the sequences that are replayed are the *distinct* prefixes of the paths: they are collected in a set, and the
+    result gets exactly one graph per element of that set (one append per sequence, after the whole sequence was applied).  Appending along
+    every path instead lists the graphs of a shared opening stretch once per path."""
+    repo = ctx.repo
+    m = repo.module(RELABEL)
+    fn = repo.anchor(RELABEL, "depth_first_orbit")
+    ctx.touch(m, fn)
+    rets = [r for r in ast.walk(fn) if isinstance(r, ast.Return) and isinstance(r.value, ast.Name)]
+    if len(rets) != 1:
+        raise AnalysisError("depth_first_orbit: returned list not found")
+    L = rets[0].value.id
+    sets = {a.targets[0].id for a in ast.walk(fn) if isinstance(a, ast.Assign) and isinstance(a.targets[0], ast.Name)
+            and (isinstance(a.value, (ast.Set, ast.SetComp)) or (isinstance(a.value, ast.Call) and isinstance(a.value.func, ast.Name) and a.value.func.id == "set"))}
+    apps = [c for c in calls_in(fn) if call_attr(c) == "append" and norm(c.func.value) == L]
+    if not apps:
+        raise AnalysisError("depth_first_orbit: no append to the returned list")
+    for ap in apps:
+        loops = []
+        q = ap
+        while parent(q) is not None and q is not fn:
+            q = parent(q)
+            if isinstance(q, (ast.For, ast.While)):
+                loops.append(q)
+        if len(loops) == 1 and isinstance(loops[0], ast.For) and norm(loops[0].iter) in sets:
+            ctx.ok("distinct.prefix-set", m, ap, what="one graph per distinct operation sequence")
+        else:
+            over = norm(loops[-1].iter) if loops and isinstance(loops[-1], ast.For) else "?"
+            ctx.fail("distinct.prefix-set", m, ap,
+                     f"depth_first_orbit appends to `{L}` inside {len(loops)} nested loop(s) over `{short(loops[-1].iter, 40) if loops and isinstance(loops[-1], ast.For) else '?'}`"
+                     f" instead of once per element of a set of distinct prefixes: the depth-first paths share their opening stretches, so those graphs are listed once "
+                     f"per path (the 5-vertex path: 19 graphs returned, 10 different)", func="depth_first_orbit", construct="depth_first_orbit: graphs appended along every path")
+
+
 # --------------------------------------------------------------------------- iso.input-first
 
 
